@@ -25,7 +25,7 @@ func init() {
 			"inside a macro the includer's variables are the macro's parameters",
 			"error texts are not compared, only error-vs-output",
 		},
-		quick: 1728 + 60 + 20 + 72 + 72 + 16000, thorough: 1728 + 60 + 20 + 72 + 72 + 400000, minQuick: 2500, minThorough: 15000,
+		quick: 1728 + 96 + 60 + 20 + 72 + 72 + 16000, thorough: 1728 + 96 + 60 + 20 + 72 + 72 + 400000, minQuick: 2500, minThorough: 15000,
 	}})
 }
 
@@ -36,6 +36,7 @@ func (allowAll) IsFilterAllowed(string) bool   { return true }
 func (allowAll) IsTagAllowed(string) bool      { return true }
 
 type c11Case struct {
+	extInc                        bool // the included template extends a layout and does its work inside a block
 	with, only, ignore, sandboxed bool
 	nameForm, placement, target   int
 	overlap                       int
@@ -64,6 +65,11 @@ func (p *c11) build(c c11Case) (*mt.TmplSet, map[string]mt.Val) {
 	if c.target == 2 {
 		incBody = append(incBody, mt.T("<"), mt.Include{E: mt.S("inc2"), HasWith: true, WithKeys: []string{"q"}, WithVals: []mt.Expr{mt.S("q-for-inc2")}, Only: c.only}, mt.T(">"))
 		incBody = append(incBody, probe("i-after")...)
+	}
+	if c.extInc {
+		// the included template is a child of a layout: scope rules are those of the include, in the layout and in the block
+		set.Add("lay", append(append([]mt.Stmt{mt.T("L{")}, probe("lay")...), mt.Block{Name: "ib", Body: []mt.Stmt{mt.T("dflt")}}, mt.T("}L")))
+		incBody = []mt.Stmt{mt.Extends{E: mt.S("lay")}, mt.Block{Name: "ib", Body: incBody}}
 	}
 	set.Add("inc", incBody)
 
@@ -181,6 +187,13 @@ func (p *c11) Run(rec *core.Recorder, seed uint64, idx int, tier string) {
 		return
 	}
 	idx -= 1728
+	if idx < 96 {
+		c := c11Case{extInc: true, with: idx&1 != 0, only: idx&2 != 0, placement: idx / 4 % 4, overlap: idx / 16 % 2, nameForm: idx / 32 % 3}
+		set, ctx := p.build(c)
+		p.check(rec, "included-template-extends", set, ctx, nil)
+		return
+	}
+	idx -= 96
 	if idx < 60 {
 		// failures other than "does not exist" must surface even with `ignore missing`
 		c := c11Case{ignore: true, with: idx&1 != 0, only: idx&2 != 0, sandboxed: idx&4 != 0, nameForm: idx / 8 % 3, placement: idx / 24 % 3}
@@ -400,6 +413,7 @@ func (p *c11) Run(rec *core.Recorder, seed uint64, idx int, tier string) {
 	// thorough: random compositions (two includes, deeper nesting)
 	r := core.NewRand("C11", seed, idx)
 	c := c11Case{with: r.Bool(), only: r.Bool(), ignore: r.Bool(), sandboxed: r.P(1, 4), nameForm: r.Intn(3), placement: r.Intn(4), target: r.Intn(3), overlap: r.Intn(3)}
+	c.extInc = c.overlap < 2 && r.P(1, 4)
 	set, ctx := p.build(c)
 	// add a second include of a third template in main with different options
 	c2 := c11Case{with: r.Bool(), only: r.Bool(), ignore: true, nameForm: 0, target: r.Intn(2)}
